@@ -206,7 +206,7 @@ func runC14(c *report.Ctx) {
 				continue // Child itself and the helpers it calls directly
 			}
 			an.Instrs(cf, func(in ssa.Instruction) {
-				if al, isAl := in.(*ssa.Alloc); isAl && al.Comment == "makeslice" {
+				if al, isAl := in.(*ssa.Alloc); isAl && (al.Comment == "makeslice" || isByteArray(al.Type(), 37)) { // make([]byte, 37) or a [37]byte variable
 					if pt, isP := al.Type().Underlying().(*types.Pointer); isP {
 						if at, isA := pt.Elem().Underlying().(*types.Array); isA && at.Len() == 37 {
 							ok = true
@@ -372,8 +372,39 @@ func runC14(c *report.Ctx) {
 	if fromStr != nil && newEK != nil {
 		// private branch: range gates; public branch: ParsePubKey success — judged on the paths into the construction site
 		parsePub := p.Fn("github.com/btcsuite/btcd/btcec", "", "ParsePubKey")
+		// the same stated on paths: no feasible path reaches the construction without the edge on which gate holds or
+		// the edge on which ParsePubKey succeeded (a parser split into steps joins its branches before constructing)
+		everyPathPasses := func(site ssa.Instruction, gate func(an.Atom) bool) bool {
+			se := &an.Search{P: p, Fn: fromStr, GoalInstr: func(in ssa.Instruction) bool { return in == site },
+				CutEdge: func(from, to *ssa.BasicBlock) bool {
+					for _, a := range p.GuardsOnEdge(from, to) {
+						if a.If == nil || a.If.Block() != from {
+							continue
+						}
+						if gate(a) || (parsePub != nil && atomNilCmpOfCallErr(a, parsePub)) {
+							return true
+						}
+					}
+					return false
+				}}
+			return se.Run(fromStr.Blocks[0], 0, nil) == nil
+		}
 		for _, s := range calls(fromStr, newEK) {
 			b := s.Block()
+			allOnPaths := parsePub != nil
+			for _, r := range inRange {
+				if !everyPathPasses(s, r.pred) {
+					allOnPaths = false
+				}
+			}
+			if allOnPaths {
+				key := sk(fromStr) + ":gate:"
+				for _, r := range inRange {
+					c.OK(key+"private:"+r.name, "every path to the construction passes the test or a successful ParsePubKey", posOf(c, s))
+				}
+				c.OK(key+"public:on-curve", "every path to the construction passes ParsePubKey's success or the private range tests", posOf(c, s))
+				continue
+			}
 			for _, pr := range b.Preds {
 				gs := p.Guards(pr)
 				if ea := edgeAtoms(p, pr, b); ea != nil {
@@ -569,4 +600,18 @@ func paddedAppendLoop(p *an.Prog, call *ssa.Call, u *ssa.UnOp, ek *types.Named) 
 		}
 	}
 	return pad
+}
+
+// isByteArray: t is *[n]byte.
+func isByteArray(t types.Type, n int64) bool {
+	pt, ok := t.Underlying().(*types.Pointer)
+	if !ok {
+		return false
+	}
+	at, ok := pt.Elem().Underlying().(*types.Array)
+	if !ok || at.Len() != n {
+		return false
+	}
+	b, ok := at.Elem().Underlying().(*types.Basic)
+	return ok && b.Kind() == types.Byte
 }
